@@ -15,7 +15,7 @@ def initial_heap(prog, fmt):
         wc = prog.get('%s::Reader::with_capacity' % fmt)
     except KeyError:
         return None
-    h = Heap(state='?', complete=False, setc='old', dirty=False, pushed=False, bufclr=False, filled=True)
+    h = Heap(state='?', complete=False, setc='old', dirty=False, pushed=False, bufclr=False, filled=True, full=False)
     if fmt == 'fastq':
         h['inc'] = '?'
     for blk in wc.blocks:
@@ -54,7 +54,7 @@ def explore(prog, fmt):
     work = [h0]
     while work:
         h = work.pop()
-        core = Heap((k, v) for k, v in h.items() if k in ('state', 'inc', 'complete'))
+        core = Heap((k, v) for k, v in h.items() if k in ('state', 'inc', 'complete', 'full'))
         fk = core.freeze()
         if fk in states:
             continue
@@ -86,7 +86,7 @@ def explore(prog, fmt):
                     hout['complete'] = False
                 cls = classify(rv)
                 trans.append((fk, name, cls, hout.freeze()))
-                nxt = Heap((k, v) for k, v in hout.items() if k in ('state', 'inc', 'complete'))
+                nxt = Heap((k, v) for k, v in hout.items() if k in ('state', 'inc', 'complete', 'full'))
                 work.append(nxt)
     res = dict(interp=it, states=states, trans=trans, ops=ops, h0=h0)
     _cache[fmt] = res
@@ -96,6 +96,8 @@ def explore(prog, fmt):
 def hdesc(frozen):
     d = dict(frozen)
     s = 'state=%s' % d.get('state')
+    if d.get('full') not in (None, False):
+        s += ',buffer-full=%s' % d['full']
     if 'inc' in d:
         s += ',incomplete=%s' % d['inc']
     s += ',located=%s' % d.get('complete')
@@ -104,6 +106,7 @@ def hdesc(frozen):
 
 def run(prog, R):
     R.rule('BUF-2', 'within one activation, an end-of-input verdict (buffer().len() < capacity()) is never taken after the buffer was altered (consume/make_room/reserve/seek) without a successful refill in between, and no operation returns successfully with an altered, un-refilled buffer (decided path-sensitively by the abstract interpreter)')
+    R.rule('GROW-7', 'over all call histories (without failed refills): the buffer is only enlarged after an end-of-input test found it full since the last refill / compaction - i.e. the record really does not fit')
     R.rule('FSM-T', 'every exit of a reading operation that returns a format error leaves the reader in its terminal state (over all reachable abstract states)')
     R.rule('FSM-E', 'from the terminal state every reading operation returns None and changes nothing; an operation returns None only in the terminal state')
     R.rule('FSM-P', 'over all call histories: the reader advances only over a located record and starts a search only when no located record is pending')
@@ -199,6 +202,12 @@ def run(prog, R):
                 bad = [v for v in it.violations if v[0] == 'FSM-S5' and v[1] == b.key]
                 if not bad:
                     R.add('FSM-S5', b, 'resume-call#%d' % n, True, site(b, t.line), 'in every reachable abstract state the buffer may only be moved while the set is still empty')
+    for fmt in ('fasta', 'fastq'):
+        it = _cache[fmt]['interp']
+        bad = [v for v in it.violations if v[0] == 'GROW-7']
+        R.add('GROW-7', '%s::Reader' % fmt, 'growth-only-with-full-buffer', not bad and it.events.get('grow', 0) > 0, 'src/%s.rs' % fmt,
+              'the growth call was reached %d times in the exploration, always with the buffer known to be full' % it.events.get('grow', 0))
+    R.floor('GROW-7', 2)
     R.floor('FSM-S5', 2)
     R.floor('FSM-P', 12)
     R.floor('FSM-E', 8)
@@ -213,12 +222,12 @@ def fsm_evidence():
     out = {}
     for fmt, ex in _cache.items():
         out['fsm_%s' % fmt] = {
-            'abstract_states': [hdesc(k) for k in sorted(ex['states'])],
+            'abstract_states': [hdesc(k) for k in sorted(ex['states'], key=str)],
             'states': len(ex['states']),
             'transitions': len(set(ex['trans'])),
             'interpreter_steps': ex['interp'].n_steps,
             'summaries': len(ex['interp'].memo),
-            'sample_transitions': ['(%s) --%s--> %s (%s)' % (hdesc(a), n, c, hdesc(h)) for (a, n, c, h) in sorted(set(ex['trans']))[:40]],
+            'sample_transitions': ['(%s) --%s--> %s (%s)' % (hdesc(a), n, c, hdesc(h)) for (a, n, c, h) in sorted(set(ex['trans']), key=str)[:40]],
         }
     return out
 
